@@ -18,8 +18,8 @@ mod verif_queuing {
     static WRAPPED_OUTCOME: AtomicUsize = AtomicUsize::new(0); // 0 ok, k+1 => Err(kind k)
     static FLUSHED: AtomicUsize = AtomicUsize::new(0);
 
-    fn kind_of(i: usize) -> ErrorKind { match i { 0 => ErrorKind::TimedOut, 1 => ErrorKind::ConnectionRefused, 2 => ErrorKind::WouldBlock, _ => ErrorKind::Other } }
-    fn kind_index(k: ErrorKind) -> usize { match k { ErrorKind::TimedOut => 0, ErrorKind::ConnectionRefused => 1, ErrorKind::WouldBlock => 2, _ => 3 } }
+    fn kind_of(i: usize) -> ErrorKind { match i { 0 => ErrorKind::Interrupted, 1 => ErrorKind::TimedOut, 2 => ErrorKind::WouldBlock, _ => ErrorKind::Other } }
+    fn kind_index(k: ErrorKind) -> usize { match k { ErrorKind::Interrupted => 0, ErrorKind::TimedOut => 1, ErrorKind::WouldBlock => 2, _ => 3 } }
 
     fn code(v: &str) -> usize { if v.is_empty() { 7 } else { (v.as_bytes()[0] - b'0') as usize } }
     fn record(v: &str) {
@@ -241,8 +241,11 @@ mod verif_queuing {
                 kani::assume(cap.map_or(true, |c| $n <= c));
                 let w = recording_worker(cap);
                 prefill(&w, $n);
+                let had_room = cap.map_or(true, |c| $n < c);
                 w.stop();
                 assert!(DELIVERED.load(Ordering::SeqCst) == 0, "[C09,C10] stop never runs the wrapped sink on the dropping thread");
+                assert!(w.stop_requested.load(Ordering::SeqCst), "[C09] the stop request is recorded for every occupancy (the worker re-checks it after each metric, so a stop racing with a draining worker is not lost)");
+                assert!(qlen(&w) == $n + if had_room { 1 } else { 0 }, "[C09] whenever the queue has room the stop marker is queued as well, so that a worker parked in recv() is woken up");
                 // the background thread continues from wherever it was blocked
                 w.stopped.store(false, Ordering::SeqCst);
                 w.run();
@@ -370,6 +373,23 @@ mod verif_queuing {
     }
     fn handler(e: io::Error) { HANDLED.fetch_add(1, Ordering::SeqCst); HANDLED_KIND.store(kind_index(e.kind()), Ordering::SeqCst); std::mem::forget(e); }
 
+    //@H name=c10_builder_keeps_config props=C10,C16,C20 fn=QueuingMetricSinkBuilder::with_capacity,with_error_handler :: the builder keeps BOTH settings whatever the order in which they are given
+    #[kani::proof]
+    #[kani::unwind(6)]
+    fn c10_builder_keeps_config() {
+        let c: usize = kani::any();
+        let first: bool = kani::any();
+        let b = if first { QueuingMetricSinkBuilder::new().with_capacity(c).with_error_handler(|e: io::Error| handler(e)) }
+                else { QueuingMetricSinkBuilder::new().with_error_handler(|e: io::Error| handler(e)).with_capacity(c) };
+        assert!(b.capacity == Some(c), "[C10] the configured capacity is kept (a bounded queue stays bounded)");
+        assert!(b.error_handler.is_some(), "[C16] the configured error handler is kept");
+        let d = QueuingMetricSinkBuilder::new();
+        assert!(d.capacity.is_none() && d.error_handler.is_none(), "[C10,C16] nothing is configured by default: unbounded queue, errors discarded");
+        kani::cover!(first, "capacity first");
+        kani::cover!(!first, "handler first");
+        std::mem::forget(b); std::mem::forget(d);
+    }
+
     //@H name=c16_handler_on_error props=C16,C20 fn=QueuingMetricSinkBuilder::with_error_handler,with_capacity,build (task closure) :: the task built by build(): the wrapped sink fails => the configured handler is invoked exactly once with that error before the task returns (handler configured BEFORE the capacity)
     #[kani::proof]
     #[kani::unwind(6)]
@@ -474,6 +494,22 @@ mod verif_queuing {
         assert!(w.stopped.load(Ordering::SeqCst) && qlen(&w) == 0 && WOULD_BLOCK.load(Ordering::SeqCst) == 0, "[C09] then the background thread terminates (it does not park in recv() again)");
         kani::cover!(true, "end");
         std::mem::forget(r); std::mem::forget(w);
+    }
+
+    //@H name=c08_build_clone_drop props=C08,C09,C20 tier=thorough bound="history through the real build(): clone, drop the clone, submit, worker runs" fn=QueuingMetricSinkBuilder::build + Clone + Drop :: handles created by the real build(): dropping a clone while the original is alive requests no stop; a metric accepted afterwards is delivered
+    #[kani::proof]
+    #[kani::unwind(6)]
+    fn c08_build_clone_drop() {
+        WRAPPED_OUTCOME.store(0, Ordering::SeqCst);
+        let q = QueuingMetricSink::with_capacity(PlainSink, 2);
+        let q2 = q.clone();
+        drop(q2);
+        assert!(!q.worker.stop_requested.load(Ordering::SeqCst) && qlen(&q.worker) == 0, "[C08] dropping a handle while another is alive neither requests a stop nor queues a stop marker");
+        assert!(q.worker.submit(String::from("1")).is_ok());
+        q.worker.run();
+        assert!(DELIVERED.load(Ordering::SeqCst) == 1, "[C08] a metric accepted on the live handle afterwards is delivered");
+        kani::cover!(true, "end");
+        std::mem::forget(q);
     }
 
     //@H name=c09_build_releases_wrapped props=C09,C20 tier=thorough bound="history: build, drop last handle, thread ends" fn=QueuingMetricSinkBuilder::build + Drop :: ownership built by build(): once the last handle is gone and the thread has ended, the wrapped sink itself is dropped (so a wrapped buffered sink flushes)
